@@ -337,7 +337,9 @@ def opterm_value(terms, model, val, tau, forbidden=None):
                     if forbidden and f[0] == "t" and f[1] in forbidden:
                         U = tuple(asg[s] for s in f[3])
                         L = tuple(asg[s] for s in f[4])
-                        if block_string(model, U, L) in forbidden[f[1]]:
+                        # the block of an amplitude is worded lower before upper
+                        bs = block_string(model, L, U) if f[2] == "M" else block_string(model, U, L)
+                        if bs in forbidden[f[1]]:
                             return
                     fv = _factor_value(f, asg, val)
                     if not fv:
